@@ -120,6 +120,7 @@ public:
             case 'g': opMore(t); break;
             case 'd': opDrop(t); break;
             case 'U': opUpdate(t); break;
+            case 'V': opEvictKept(t); break;
             case 'E': opEvict(t, static_cast<int>(static_cast<unsigned>(atoi(op.c_str() + 1)) % static_cast<unsigned>(nKeys_))); break;
             default: break;
             }
@@ -529,15 +530,15 @@ private:
 
     /* ---- eviction ---- */
 
-    void opEvict(int t, int j) {
+    template <class Call> void evictWith(int t, int j, Call call, int onlyVer = -1) {
         Worker &w = w_[t];
         w.evicting = true; w.evictKey = j; w.evictDisturbed = false; w.evictStartTick = tick_;
         w.evictTargets.clear();
         for (auto &o : w_) if (o.starting && o.startKey == j) w.evictDisturbed = true; // setKey() may reset the mark
         for (size_t v = 1; v < vers_.size(); ++v)
-            if (vers_[v].key == j && vers_[v].started && !vers_[v].deletedTick) w.evictTargets.push_back(static_cast<int>(v));
+            if (vers_[v].key == j && vers_[v].started && !vers_[v].deletedTick && (onlyVer < 0 || onlyVer == static_cast<int>(v))) w.evictTargets.push_back(static_cast<int>(v));
         now();
-        store(t).evictIfFound(keyOf(j));
+        call();
         w.evicting = false;
         vsim::probe("c19.evictions");
         if (w.evictDisturbed) return;
@@ -554,6 +555,26 @@ private:
             }
             if (!ver.deletedTick) { ver.deletedTick = at; vsim::probe("c19.certain_evictions"); }
         }
+    }
+
+    void opEvict(int t, int j) { evictWith(t, j, [&] { store(t).evictIfFound(keyOf(j)); }); }
+
+    // what StoreEntry::release() does to the shared memory cache for an entry this worker holds (Store::Controller::evictCached() ->
+    // MemStore::evictCached()): the entry was loaded by get() and is either still attached (reading) or already detached after a complete copy
+    void opEvictKept(int t) {
+        Worker &w = w_[t];
+        if (w.kept.empty()) return;
+        Kept k = w.kept.front();
+        w.kept.pop_front();
+        StoreEntry *e = k.e;
+        e->key = const_cast<cache_key *>(keyOf(k.key)); // public key set by hand, as for writers
+        e->lock("shm_memstore release");                // the releasing transaction still holds its entry
+        vsim::probe(e->hasMemStore() ? "c19.release_attached" : "c19.release_detached");
+        // An attached entry is matched by its attachment (Store::Controlled::evictCached()): only the edition it reads is certainly evicted; an
+        // edition that a header update has meanwhile published under the same key stays (DESIGN.md 8.7). A detached entry is matched by key.
+        evictWith(t, k.key, [&] { store(t).evictCached(*e); }, e->hasMemStore() ? k.ver : -1);
+        if (e->hasMemStore()) store(t).disconnect(*e);
+        destroy(e);
     }
 
     const CaseSpec *spec_ = nullptr;
